@@ -1,5 +1,7 @@
 """C14 on the real code: one Hamiltonian series passed in different formats / carriers / block designations must give
 the same H_tilde, U, U† (compared as dense arrays with a tight tolerance)."""
+import os, sys; sys.path.insert(0, os.path.dirname(os.path.abspath(__file__)))
+from common import case_rnd, skip
 import sys, json, random, itertools, warnings
 import numpy as np, sympy
 from scipy import sparse
@@ -21,6 +23,8 @@ FORMATS = ["list-dense", "dict-sparse", "dict-sympy", "sympy-symbols", "monomial
 def main(seed, ncases, driver, out):
     rnd = random.Random(seed); failures = []; dist = {}; samples = []; evals = 0; distinct = 0; worst = 0.0
     for c in range(ncases):
+        if skip(c): continue
+        rnd = case_rnd(seed, c)
         fmt = FORMATS[c % len(FORMATS)]
         N = rnd.randint(2, 3); sizes = [rnd.randint(1, 2) for _ in range(N)]; d = sum(sizes)
         blocks = sum([[b] * s for b, s in enumerate(sizes)], [])
